@@ -244,18 +244,6 @@ class ReplacementFrontend(ConstrainedFrontend):
             return super()._concrete_constraint(er)
         return super()._concrete_constraint(e)
 
-    @staticmethod
-    def _pins_variable(c):
-        """
-        Whether constraint `c` only gives a variable a value (x == 5, b, Not(b)): replacing the variable everywhere
-        captures such a constraint completely.
-        """
-        if c.op == "Not":
-            return c.args[0].is_leaf()
-        if c.op == "__eq__":
-            return any(a.is_leaf() and a.symbolic and not b.symbolic for a, b in (c.args, c.args[::-1]))
-        return c.is_leaf()
-
     def _add(self, constraints, invalidate_cache=True):
         if self._auto_replace:
             for c in constraints:
@@ -290,11 +278,11 @@ class ReplacementFrontend(ConstrainedFrontend):
                         self.add_replacement(old, rold.intersection(new))
 
         added = super()._add(constraints)
-        # Replacing anything but a plain variable does not constrain the variables involved wherever else they occur,
-        # so a constraint must not vanish just because a replacement (typically the one it has just defined itself)
-        # turns it into a tautology.
+        # A replacement is applied neither to the constraints the actual solver already has nor to expressions that
+        # do not contain the replaced term, so a constraint must not vanish just because a replacement (typically
+        # the one it has just defined itself) turns it into a tautology.
         cr = tuple(
-            c if isinstance(r, Base) and r.is_true() and not self._pins_variable(c) else r
+            c if self._allow_symbolic and isinstance(r, Base) and r.is_true() else r
             for c, r in zip(added, self._replace_list(added), strict=False)
         )
         if not self._allow_symbolic and any(c.symbolic for c in cr):
